@@ -101,9 +101,9 @@ fn eval_function<E: Evaluator>(
     args: &TulispObject,
 ) -> Result<TulispObject, Error> {
     zip_function_args::<E>(ctx, params, args)?;
-    let result = ctx.eval_progn(body)?;
+    let result = ctx.eval_progn(body);
     params.unbind()?;
-    Ok(result)
+    result
 }
 
 fn eval_lambda<E: Evaluator>(
